@@ -13,11 +13,12 @@ TB_ASM = TB + ('; nasm + objdump agree on instruction boundaries for code reache
 
 CHECKS = {
     'C17': dict(
-        technique='static analysis: AST inventory of mutable globals + writer/escape classification; ELF section inventory',
+        technique='static analysis: AST inventory of mutable globals + writer/escape classification; who-may-call rule for the errno accessor; ELF section inventory',
         text='Decides that the library owns no mutable state shared between managers beyond a reasoned allow-list: '
              'every non-const global / function-local static in every library TU and every writable section of every '
              'assembled object is enumerated; each write or address-escape must come from an allow-listed function; '
-             'manager errors must be stored in the manager (not only the process-wide mirror). Data races on memory '
+             'manager errors must be stored in the manager (not only the process-wide mirror); no library function decides anything on '
+             'imb_get_errno(), whose answer for a manager with status 0 is the process-wide code (who-may-call rule; found K14). Data races on memory '
              'the caller shares between managers are not decided.',
         design='§3 C17', note=TB_ASM),
 }
@@ -110,7 +111,8 @@ CHECKS['C08'] = dict(
          'SHANI/GFNI-off flags clear exactly their bits; self-test only after successful init; ISA containment: every assembly routine reachable '
          'from a variant TU (called or bound, transitively through assembly callees) uses only instruction-set extensions (classified from '
          'encoding, mnemonic and operand width) whose IMB_FEATURE bits the variant requires or a dominating feature test establishes; '
-         'object-level clone / constant-width / constant-table-copy consistency of the kernels. NOT decided: bit-equality of different kernels for the same '
+         'object-level clone / constant-width / constant-table-copy consistency of the kernels; the two arms of an `if` that call the same routines up to '
+         'instruction-set tokens (_gfni/_no_gfni, ...) take the same nested decisions; the all-lanes flag of the multi-lane ZUC-EIA3 C routines is read at every short/full round choice. NOT decided: bit-equality of different kernels for the same '
          'algorithm; instructions emitted by the C compiler.',
     design='§3 C08', note=TB)
 
@@ -125,28 +127,29 @@ CHECKS['C01'] = dict(
          'every cipher macro->kernel binding agrees in key size/direction.' + _DEV + ' A wrong constant applied consistently, or a reordered data flow inside one kernel, stays invisible.',
     design='§3 C01-C03', note=TB)
 CHECKS['C02'] = dict(
-    technique='static analysis: binding/dispatch agreement for hash/MAC/CRC kernels; clone and definition-use deviance rules over the assembled kernels',
+    technique='static analysis: binding/dispatch agreement for hash/MAC/CRC kernels; clone and definition-use deviance rules over the assembled kernels; symbolic-interval dataflow and shape rules over the C padding routines',
     text=_NOTVAL + ' Decided: every hash table cell of every variant dispatches algorithm i to kernels of that algorithm and digest size (HMAC '
-         'and plain kept apart), with submit/flush on the same out-of-order manager, and hash bindings agree in digest/key size/operation.' + _DEV,
+         'and plain kept apart), with submit/flush on the same out-of-order manager, and hash bindings agree in digest/key size/operation.' + _DEV + ' The SHA padding built in C (one-shot functions and C multi-buffer SHA managers) puts 0x80 directly behind the copied tail, re-establishes a re-used scratch block from zero (symbolic intervals), stores the length once as bytes*8 at <block multiple>-8, and all sites agree on the extra-block test `tail >= blk_size - pad_size`.' + ' Multi-lane ZUC-EIA3 C routines that keep an all-lanes-end-together flag read it wherever they choose, once for all lanes, between a short and a full keystream round.',
     design='§3 C01-C03', note=TB)
 CHECKS['C03'] = dict(
     technique='static analysis: binding/dispatch agreement for AEAD and combined modes; clone / contradiction / definition-use deviance rules over the assembled kernels',
     text=_NOTVAL + ' Decided: for GCM, GCM-SGL, CCM, ChaCha20-Poly1305(-SGL), SNOW-V-AEAD, SM4-GCM, DOCSIS-BPI and PON both table halves of every '
-         'variant dispatch the accepted (mode, key) to kernels of that mode, key size and direction; paired hash algorithms reach their own kernels.' + _DEV,
+         'variant dispatch the accepted (mode, key) to kernels of that mode, key size and direction; paired hash algorithms reach their own kernels.' + _DEV + ' C AEAD code (ChaCha20-Poly1305 one-shot/SGL/direct, SM4-GCM, SNOW-V-AEAD) feeds the authenticator and its scratch block from the output buffer after the cipher call on encrypt and from the input buffer before it on decrypt (the tag is defined over the ciphertext).',
     design='§3 C01-C03', note=TB)
 CHECKS['C09'] = dict(
     technique='static analysis: constant propagation through each burst helper and comparison of the reached kernel set with the job-API table cell; CFG rules for COMPLETED hand-back',
     text='Decides that the entry points share one dispatch, one validation and one kernel set: each synchronous cipher/AEAD burst helper of every '
          'variant validates with the (mode, direction) whose kernels it then runs, per key size reaches only kernels the job-API cell of the same '
          '(mode, key, direction) reaches; the asynchronous burst API indexes the same tables by suite id and rejects a stale suite id; burst calls '
-         'hand back only COMPLETED jobs; every variant binds every entry point. NOT decided: output equality between job-API kernels and the '
+         'hand back only COMPLETED jobs; every variant binds every entry point. The SHA padding built in C (one-shot functions and C multi-buffer SHA managers) puts 0x80 directly behind the copied tail, re-establishes a re-used scratch block from zero (symbolic intervals), stores the length once as bytes*8 at <block multiple>-8, and all sites agree on the extra-block test. C AEAD code feeds the authenticator from the output buffer after the cipher call on encrypt and from the input buffer before it on decrypt, in the one-shot, SGL and direct-API functions alike. NOT decided: output equality between job-API kernels and the '
          'different symbols behind the direct API (value-level).',
     design='§3 C09', note=TB)
 CHECKS['C11'] = dict(
     technique='static analysis: constant propagation of the algorithm selector through imb_hmac_ipad_opad; binding agreement of helper slots',
     text='NOT decided: the key material values. Decided (selection clauses): for every accepted HMAC algorithm the over-long test, substitute '
          'length, key hash, one-block function and 0x36/0x5c pads belong to the same algorithm, HMAC-MD5 keys over one block are refused '
-         'before any hashing, and the key-helper slots of all nine variants are bound to kernels of the same algorithm and key size.',
+         'before any hashing, and the key-helper slots of all nine variants are bound to kernels of the same algorithm and key size; the SHA one-shot '
+         'function that hashes over-long keys builds its padding as FIPS 180 lays it out (marker, zero fill from a clean block, bit length, extra-block test).',
     design='§3 C11', note=TB)
 
 CHECKS['C04'] = dict(
@@ -157,7 +160,7 @@ CHECKS['C04'] = dict(
          'that completes a job also clears the slot and returns the lane, submit parks the job argument and pops a lane, and the stage bit is the '
          'manager\'s own; every mode/algorithm parked in a manager with 16-bit lane lengths has a validation bound <= 0xFFFF (this rule found K12); '
          'in every manager routine the block count handed to the multi-lane kernel and the vector subtracted from all lane lengths derive from the '
-         'same lane-minimum search on every path (provenance domain); manager routines hold no more never-read values / never-defined reads than on the reference tree; the copies of one named constant table (lane masks, byte swaps) in three or more manager units agree.',
+         'same lane-minimum search on every path (provenance domain); manager routines hold no more never-read values / never-defined reads than on the reference tree; the copies of one named constant table (lane masks, byte swaps) in three or more manager units agree; multi-lane ZUC-EIA3 C routines give a shortened last keystream round only when their all-lanes-end-together flag is set (a longer lane must not be affected by a shorter co-scheduled one).',
     design='§3 C04', note=TB_ASM)
 CHECKS['C13'] = dict(
     technique='static analysis: CFG must-scrub typestate on C locals, arch-sibling agreement, zero/non-zero abstract interpretation of vector registers at every exit of every assembled function, typed zero-store coverage of manager fields against a reference baseline',
@@ -189,7 +192,7 @@ CHECKS['C07'] = dict(
          'the hash dispatch reaches, each store of constant extent through a pointer loaded from job->auth_tag_output lies within the smallest accepted '
          'tag length compatible with the comparisons / bit tests of that job\'s tag-length field which hold at the store on every path; C call sites that '
          'hand the tag pointer to a callee taking a tag length pass that job\'s tag length; routines whose vector stores to one destination family '
-         'are all masked on the reference tree keep them masked. Masked, byte-granular and run-time-indexed tag stores, tag '
+         'are all masked on the reference tree keep them masked. One structural clause of in-place == out-of-place is decided too: C AEAD code (ChaCha20-Poly1305 one-shot/SGL/direct, SM4-GCM, SNOW-V-AEAD) feeds the authenticator and its scratch block from the output buffer after the cipher call on encrypt and from the input buffer before it on decrypt (the tag is defined over the ciphertext). Masked, byte-granular and run-time-indexed tag stores, tag '
          'stores of cipher-side AEAD routines and of algorithms whose tag guard is conditional are counted, not decided.',
     design='§3 C07', note=TB_ASM + '; ZUC-256 EIA3 routines are a reasoned exception (one manager per tag size)')
 
